@@ -3,9 +3,9 @@
 
 use toodee::{TooDee, TooDeeOps, TooDeeOpsMut};
 
-use super::c11::build;
+use super::elem::Elem;
 use super::exam::{exam, ledger_ok};
-use crate::engine::ledger::Tracked;
+use crate::engine::ledger::{Tracked, TrackedZst};
 use crate::engine::util::{shapes, windows};
 use crate::engine::{guarded, Ctx, Profile, Prop, Tier};
 
@@ -79,10 +79,17 @@ impl Prop for C12P {
         vec![Profile::Chk, Profile::Wrap, Profile::Rel]
     }
     fn units(&self, tier: Tier) -> Vec<String> {
-        shapes(tier.pick(4, 6)).iter().map(|(c, r)| format!("{}x{}", c, r)).collect()
+        let mut v = Vec::new();
+        for (c, r) in shapes(tier.pick(4, 6)) {
+            for tag in ["T", "U", "Z"] {
+                v.push(format!("{} {}x{}", tag, c, r));
+            }
+        }
+        v
     }
     fn run_unit(&self, unit: &str, ctx: &mut Ctx) {
-        let (c, r) = unit.split_once('x').unwrap();
+        let (tag, dims) = unit.split_once(' ').unwrap();
+        let (c, r) = dims.split_once('x').unwrap();
         let (c, r): (usize, usize) = (c.parse().unwrap(), r.parse().unwrap());
         for leak in leaks_for(c, r) {
             let cap = capacity_of(&leak, c, r);
@@ -98,7 +105,11 @@ impl Prop for C12P {
             }
             for (f, b) in splits {
                 for spare in [false, true] {
-                    run_leak(&leak, c, r, f, b, spare, ctx);
+                    match tag {
+                        "T" => run_leak::<Tracked>(&leak, c, r, f, b, spare, ctx),
+                        "U" => run_leak::<u32>(&leak, c, r, f, b, spare, ctx),
+                        _ => run_leak::<TrackedZst>(&leak, c, r, f, b, spare, ctx),
+                    }
                 }
             }
         }
@@ -108,7 +119,7 @@ impl Prop for C12P {
         true
     }
     fn rule(&self) -> String {
-        "every value the API returns that has a destructor or holds a borrow - DrainRow and DrainCol via remove_row/remove_col at every index and pop_row/pop_col, Rows, RowsMut, Col, ColMut (every column), Cells, CellsMut, TooDeeView and TooDeeViewMut of every window (and a nested view_mut of a leaked view_mut), IntoIter - on TooDee<Tracked> of every shape in the bound, exact and spare capacity, \
+        "every value the API returns that has a destructor or holds a borrow - DrainRow and DrainCol via remove_row/remove_col at every index and pop_row/pop_col, Rows, RowsMut, Col, ColMut (every column), Cells, CellsMut, TooDeeView and TooDeeViewMut of every window (and a nested view_mut of a leaked view_mut), IntoIter - on TooDee<Tracked>, TooDee<u32> (no drop glue) and TooDee<zero-sized> of every shape in the bound, exact and spare capacity, \
          consumed by every (front, back) split and then passed to mem::forget (items taken out are held and dropped later). Afterwards: shape invariant; every reachable cell live, canary-valid and pairwise distinct; the array is read through Index/rows/cells/col, two cells replaced, rows and columns pushed, inserted, removed and popped, then dropped; no double drop and no drop of a never-constructed value (the array may have lost elements, up to being empty). For IntoIter only the ledger clause applies. \
          A case is (shape, capacity, leaked value, front, back); non-trivial = non-empty array; distinct by the tuple."
             .into()
@@ -121,13 +132,14 @@ impl Prop for C12P {
     }
 }
 
-fn run_leak(leak: &Leak, c: usize, r: usize, f: usize, b: usize, spare: bool, ctx: &mut Ctx) {
+fn run_leak<E: Elem>(leak: &Leak, c: usize, r: usize, f: usize, b: usize, spare: bool, ctx: &mut Ctx) {
     ctx.case(
-        || format!("TooDee<Tracked> {}x{} {}: take {} from the front and {} from the back of {:?}, then mem::forget it", c, r, if spare { "spare" } else { "exact" }, f, b, leak),
+        || format!("TooDee<{}> {}x{} {}: take {} from the front and {} from the back of {:?}, then mem::forget it", E::NAME, c, r, if spare { "spare" } else { "exact" }, f, b, leak),
         |cs| {
-            let mut t: TooDee<Tracked> = build(c, r, spare);
+            let labels: Vec<u32> = (0..(c * r) as u32).collect();
+            let mut t: TooDee<E> = super::array_bfs::materialize(c, r, &labels, spare);
             if c > 0 {
-                cs.nontrivial((c, r, spare, leak, f, b));
+                cs.nontrivial((E::NAME, c, r, spare, leak, f, b));
             }
             cs.outcome(match leak {
                 Leak::Drain(..) => "leaked-drain",
@@ -135,7 +147,7 @@ fn run_leak(leak: &Leak, c: usize, r: usize, f: usize, b: usize, spare: bool, ct
                 Leak::IntoIter => "leaked-into_iter",
                 _ => "leaked-iterator",
             });
-            let mut held: Vec<Tracked> = Vec::new();
+            let mut held: Vec<E> = Vec::new();
             let mut gone = false;
             macro_rules! take_forget_owned {
                 ($it:expr) => {{
@@ -204,7 +216,7 @@ fn run_leak(leak: &Leak, c: usize, r: usize, f: usize, b: usize, spare: bool, ct
                 return;
             }
             let what = format!("after mem::forget of {:?} ({} front, {} back taken)", leak, f, b);
-            if held.iter().any(|e| !e.valid()) {
+            if held.iter().any(|e| !e.sane()) {
                 cs.fail("leak:dead-item", format!("{}: an item handed out before the leak is dead", what));
             }
             if gone {
